@@ -626,6 +626,10 @@ func ruleEncoderOneOf(c *chk.Ctx) {
 			continue
 		}
 		blocks := map[string]*ssa.BasicBlock{}
+		// the member's name may be chosen by a private helper that returns it (with the value)
+		// as a field of a small record: one name per return of the helper, one write of the field
+		chosen := map[string]*ssa.Return{}
+		chosenLoop := false
 		for _, em := range emitsOf(c, f, encoderFuncs(c)) {
 			if s, ok := constString(em.arg); ok {
 				for _, k := range []string{"method", "result", "error"} {
@@ -633,7 +637,38 @@ func ruleEncoderOneOf(c *chk.Ctx) {
 						blocks[k] = em.at.Block()
 					}
 				}
+				continue
 			}
+			if hc, ri, fk, isRes := ir.StructFieldOrigin(ir.NormCell(em.arg)); isRes {
+				if h := hc.Call.StaticCallee(); h != nil && c.P.InRepo[h] && !ir.Exported(h) {
+					if fvs, known := ir.ResultFieldVals(h, ri, fk); known {
+						for _, fv := range fvs {
+							if fv.Zero {
+								continue
+							}
+							if s, ok := constString(fv.Val); ok {
+								for _, k := range []string{"method", "result", "error"} {
+									if strings.Contains(s, `"`+k+`"`) || s == k {
+										if _, dup := chosen[k]; dup {
+											chosenLoop = true
+										}
+										chosen[k] = fv.Ret
+										if ir.InCycle(em.at.Block()) {
+											chosenLoop = true
+										}
+									}
+								}
+							}
+						}
+					}
+				}
+			}
+		}
+		if len(blocks) == 0 && len(chosen) > 0 {
+			found = true
+			distinct := len(chosen) == 3 && chosen["method"] != chosen["result"] && chosen["result"] != chosen["error"] && chosen["method"] != chosen["error"]
+			c.Check(distinct && !chosenLoop, "TABLE.oneof", f, "exactly one of method / result / error", f.Pos(), "the member name is chosen by three different returns of one helper call and written once", "the encoder can write more than one of the method, result and error members into one message (or one of the three writes is missing)")
+			continue
 		}
 		if len(blocks) == 0 {
 			continue // a wrapper around the function that writes the members
